@@ -13,7 +13,7 @@ reg("C18",
     name="C18_sched_graph", src="harness/C18_sched_graph.cpp",
     anchor_files=["include/hgraph/runtime/node_scheduler.h", "src/hgraph/runtime/node.cpp", "src/hgraph/runtime/graph.cpp", "include/hgraph/types/static_node.h"],
     quick=dict(defs=dict(NEVALS=2, OPS_PER_EVAL=2, OPS_LATER=1, KMAX=3, WIN=6), symx=dict(shards=16, **{"max-wall": 900, "shard-depth": 8})),
-    thorough=dict(defs=dict(NEVALS=3, OPS_PER_EVAL=2, KMAX=3, WIN=8), symx=dict(shards=16, **{"max-wall": 3000, "shard-depth": 8})),
+    thorough=dict(defs=dict(NEVALS=3, OPS_PER_EVAL=2, OPS_LATER=1, KMAX=3, WIN=8), symx=dict(shards=16, **{"max-wall": 3000, "shard-depth": 8})),
     reach=["end", "three_evals", "tag_replaced", "cancel_tag", "cancel_earliest", "ignored_past_or_now"],
     bounds="a scripted node performs OPS_PER_EVAL scheduler actions in its first and OPS_LATER in each later one of its first NEVALS evaluations, actions from {schedule(delta, none/a/b), un_schedule(), "
            "un_schedule(a/b), pop_tag(a/b), reset, nothing}; deltas symbolic in [-1,KMAX]; its input ticks twice with a symbolic period in [1,KMAX]; a second "
